@@ -39,7 +39,14 @@ RULE = (
     "sys.get_int_max_str_digits(), also inside varint[]; a set legacy net.ipv4.Address field; a nested record whose type is "
     "first seen inside the failing record) in the patterns BG, BGG, BBG, GBG, BOG, BGOG, OBGB (B refused, G good record of "
     "that type, O other type) with the application catching the exception - expected = every record whose write() "
-    "returned, in order; the rest are random mixes.  Oracle: (a) the raw text splits into standalone documents with "
+    "returned, in order; (3) descriptor turnover: one type NAME in 8 layouts (boolean fields at other positions / the same "
+    "position with another type), one descriptor object per layout and round created, written through a fresh writer, "
+    "released and garbage-collected, 16 rounds, one writer alive throughout; the rest are random mixes.  Reading: every "
+    "file written without indent is read through the text path and (sampled) a .gz / .bz2 copy named with the jsonfile:// "
+    "scheme, a binary file object given to RecordReader('jsonfile://', fileobj=...), stdin of a child process, and through "
+    "reader-usage histories (peek then iterate again; iterate partly, break, iterate again; one corrupt record line - "
+    "truncated or garbage - with the application catching the error and iterating the same reader again: the records "
+    "of all intact lines come back once, in order).  Oracle: (a) the raw text splits into standalone documents with "
     "json.JSONDecoder.raw_decode, each accepted by a strict RFC 8259 parser (NaN/Infinity tokens refused, duplicate keys "
     "refused) - one document per line without indent, multi-line documents indented by the requested width with indent; "
     "(b) the record documents correspond 1:1, in order, to the records written, their keys are the record's fields in "
@@ -66,6 +73,9 @@ ASSUMPTIONS = [
     "write histories: in-place list changes insert elements already converted to the element type (list.append itself "
     "does not convert - C05's subject); a refused record is one whose write() raises (if the tree accepts it the case is "
     "abandoned and counted, not judged); the rdump path compares against what the intermediate stream file holds",
+    "reading a JSON file object WITHOUT the jsonfile:// scheme, a .gz path without the scheme, and writing to jsonfile://x.json.gz "
+    "are refused by the pinned code (no adapter detection for JSON, text written to a binary compressor) and are not demanded",
+    "reader-usage histories corrupt record lines only (a lost descriptor line makes later records of its type undecodable by design)",
     "values come from the pools in verif/gen.py (lone surrogates outside U+DC80-DCFF and sub-second UTC offsets are not generated)",
 ]
 SHARDS = {"quick": 8, "thorough": 16}
@@ -305,7 +315,7 @@ def teardown(ctx):
 
 def generate(ctx):
     idx = 0
-    reps = ctx.scale(6, 18)
+    reps = ctx.scale(4, 18)
     allcells = cells()
     for rep in range(reps):
         for t, vc in allcells:
@@ -338,9 +348,9 @@ def generate(ctx):
                 idx += 1
     # write histories (1): one record object written repeatedly, modified between the writes
     vias = ("uri", "path", "pathl", "direct")
-    for i in range(ctx.scale(40, 200)):
+    for i in range(ctx.scale(24, 200)):
         cfg = (0, 3, 0, 3, (1, 2, 4, 5)[i % 4])[(i + ctx.shard) % 5]
-        yield {"k": "rewrite", "cfg": cfg, "via": vias[(i + ctx.shard) % 4], "rdump": bool(i % 10 == 0 and cfg in (0, 3)),
+        yield {"k": "rewrite", "cfg": cfg, "via": vias[(i + ctx.shard) % 4], "rdump": bool(i % 16 == 0 and cfg in (0, 3)),
                "s": subseed("c14", ctx.seed, "rewrite", ctx.shard, i)}
     # write histories (2): records the encoder refuses, the application carries on with the same writer
     idx = 0
@@ -352,11 +362,15 @@ def generate(ctx):
                         yield {"k": "fail", "fk": fk, "pat": pat, "cfg": cfg, "via": vias[(j + rep + idx) % 4],
                                "s": subseed("c14", ctx.seed, "fail", fk, pat, cfg, rep)}
                     idx += 1
+    # descriptor turnover: one type name, changing layouts, descriptors released and their addresses re-used
+    for i in range(ctx.scale(3, 16)):
+        yield {"k": "turnover", "cfg": (0, 3)[(i + ctx.shard) % 2], "rounds": 16, "n": 3, "via": "direct",
+               "s": subseed("c14", ctx.seed, "turnover", ctx.shard, i)}
     # grouped records: stored as their flat view
-    for i in range(ctx.scale(30, 150)):
+    for i in range(ctx.scale(20, 150)):
         yield {"k": "group", "cfg": (0, 3, 0, 3, (1, 2, 4, 5)[i % 4])[(i + ctx.shard) % 5], "via": ("uri", "path", "pathl")[i % 3],
                "s": subseed("c14", ctx.seed, "group", ctx.shard, i)}
-    nmix = ctx.scale(150, 700)
+    nmix = ctx.scale(80, 700)
     for i in range(nmix):
         yield {"k": "mix", "cfg": (i + ctx.shard) % len(CONFIGS), "via": ("uri", "path", "pathl")[i % 3],
                "s": subseed("c14", ctx.seed, "mix", ctx.shard, i)}
@@ -749,6 +763,121 @@ def run_rdump(ctx, src, dst_uri):
     return p.returncode, p.stderr[-1500:]
 
 
+TURNOVER_LAYOUTS = [
+    [("boolean", "a"), ("varint", "b")],
+    [("varint", "a"), ("boolean", "b")],
+    [("string", "a"), ("boolean", "c"), ("varint", "b")],
+    [("varint", "a"), ("varint", "b"), ("boolean", "c")],
+    [("boolean", "a"), ("boolean", "b")],
+    [("varint", "a"), ("varint", "b")],
+    [("boolean[]", "a"), ("varint", "c"), ("boolean", "b")],
+    [("varint", "c"), ("boolean", "a")],
+]
+
+
+def execute_turnover(ctx, case):
+    """One process creates and RELEASES descriptors of one type NAME with different layouts (boolean fields at other
+    positions, the same position with another type) across several writers: create, write, close, drop, gc, many rounds,
+    with one writer alive throughout.  Descriptor objects that land on an address a released one had are written first:
+    bookkeeping keyed on object identity would take them for the old layout."""
+    import gc
+
+    from flow.record import RecordDescriptor, RecordReader
+
+    descriptors, indent = CONFIGS[case["cfg"]]
+    cfgname = "desc=%s/indent=%s" % ("on" if descriptors else "off", indent)
+    rng = random.Random(case["s"])
+    ctx.ev()
+    name = "turn/t%x" % (case["s"] & 0xFFFFF)
+    files = []  # [path, how, written]
+    old_ids = set()
+    reused = 0
+    try:
+        try:
+            from flow.record.adapter.jsonfile import JsonfileWriter
+
+            p0new = os.path.join(ctx.state["tmp"], "t%d-alive.json" % ctx.evaluations)
+            w0 = JsonfileWriter(p0new, indent=indent, descriptors=descriptors)
+            files.append([p0new, {"target": "JsonfileWriter(<tmp>) alive during all rounds", "kwargs": {}}, []])
+            from flow.record import RecordWriter
+
+            order = list(range(len(TURNOVER_LAYOUTS)))
+            rng.shuffle(order)
+            occupant = {}  # address -> layout index of the released descriptor that lived there
+            for rnd in range(case["rounds"]):
+                # a record carries the descriptor object that was created LAST for its (name, layout); so every round
+                # creates one descriptor per layout it uses, writes, and releases them all together with the writer
+                k = case["n"]
+                lay = [order[(rnd + j) % len(order)] for j in range(k)]
+                descs = [RecordDescriptor(name, TURNOVER_LAYOUTS[li]) for li in lay]
+                for d_, li in zip(descs, lay):
+                    if occupant.get(id(d_), li) != li:
+                        reused += 1
+                newpath = os.path.join(ctx.state["tmp"], "t%d-r%d.json" % (ctx.evaluations, rnd))
+                if rnd % 2:
+                    w = RecordWriter("jsonfile://" + newpath + ("" if descriptors else "?descriptors=false"))
+                else:
+                    w = JsonfileWriter(newpath, indent=indent, descriptors=descriptors)
+                written = []
+                files.append([newpath, {"target": "writer of round %d" % rnd, "kwargs": {}}, written])
+                for i in range(2):
+                    for d, li in zip(descs, lay):
+                        kw = {}
+                        for t, fn in TURNOVER_LAYOUTS[li]:
+                            if t == "boolean":
+                                kw[fn] = rng.choice([True, False, None])
+                            elif t == "boolean[]":
+                                kw[fn] = [rng.choice([True, False]) for _ in range(rng.randint(0, 3))]
+                            elif t == "varint":
+                                kw[fn] = rng.choice([0, 1, 2, 7 + i, -3, 2**70, None])
+                            else:
+                                kw[fn] = "s%d" % i
+                        rec = d.recordType(**kw)
+                        written.append(observe.normalise(observe.obs(rec)))
+                        w.write(rec)
+                        if i == 0 and d is descs[0] and rnd % 5 == 0:
+                            files[0][2].append(written[-1])
+                            w0.write(rec)  # the long-lived writer keeps this descriptor alive
+                w.flush()
+                w.close()
+                for d_, li in zip(descs, lay):
+                    occupant[id(d_)] = li
+                del descs, d, d_, rec, w
+                gc.collect()
+            w0.flush()
+            w0.close()
+        except Exception as e:  # noqa: BLE001
+            ctx.violation(None, "descriptor turnover: writing valid records raised %s" % type(e).__name__,
+                          detail={"exception": repr(e)[:400], "config": cfgname, "case": case})
+            return
+        ctx.event("turnover_cases")
+        ctx.event("turnover_descriptor_objects_at_a_previously_used_address", reused)
+        for path, how, written in files:
+            with open(path, "r", encoding="utf-8", newline="") as f:
+                text = f.read()
+            ph = [None] * len(written)
+            check_text(ctx, case, ph, written, text, descriptors, indent, cfgname, how)
+            base = {"config": cfgname, "opened": how}
+            try:
+                rd = RecordReader(path)
+                got = [observe.normalise(observe.obs(r)) for r in rd]
+                rd.close()
+            except Exception as e:  # noqa: BLE001
+                ctx.violation(None, "descriptor turnover: reading the file raised %s" % type(e).__name__, detail=dict(base, exception=repr(e)[:300]))
+                continue
+            compare_read_obs(ctx, got, written, descriptors, base, "turnover")
+            ctx.event("turnover_records", len(written))
+        ctx.event("config:" + cfgname)
+        ctx.nontrivial("turnover", case["cfg"], case["rounds"], case["n"], case["s"])
+        ctx.sample({"case": case, "reused_addresses": reused, "files": len(files)}, kind="turnover:" + cfgname)
+    finally:
+        for path, _, _ in files:
+            try:
+                os.unlink(path)
+            except OSError:
+                pass
+
+
 def execute_history(ctx, case):
     from flow.record import RecordReader, RecordWriter
 
@@ -836,6 +965,8 @@ def execute(ctx, case):
 
     if case["k"] in ("rewrite", "fail"):
         return execute_history(ctx, case)
+    if case["k"] == "turnover":
+        return execute_turnover(ctx, case)
     descriptors, indent = CONFIGS[case["cfg"]]
     focus = (case["t"], case["vc"]) if case["k"] == "cell" else None
     # JSON has no length classes (unlike msgpack): the 1 MiB strings / 65536-element lists of gen's thorough mode add
@@ -1126,32 +1257,53 @@ def check_read(ctx, RecordReader, path, case, records, written, descriptors, cfg
                         pass
         return
     ctx.event("records_read", len(got))
-    if len(got) != len(records):
-        ctx.violation(None, "%d records written, %d read back from JSON" % (len(records), len(got)), detail=base)
-        return
     for o in got:
         try:
             observe.assert_typed(o, "read back")
         except observe.Untyped as e:
             ctx.violation(None, "record read back from JSON holds an untyped slot", detail=dict(base, error=str(e)))
+    compare_read_obs(ctx, [observe.normalise(observe.obs(o)) for o in got], written, descriptors, base, "")
+    # the other reading routes of the same file must give the same records
+    if len(written) and not path.endswith(".rest.json"):
+        sel = ctx.state["read_checks"] = ctx.state.get("read_checks", 0) + 1
+        if sel % 2 == 0:
+            route = ("gz", "bz2", "fileobj")[(sel // 2) % 3]
+            read_other_route(ctx, RecordReader, path, route, written, descriptors, base)
+        if sel % (60 if ctx.quick else 150) == 7:
+            read_other_route(ctx, RecordReader, path, "stdin-child", written, descriptors, base)
+        if len(written) >= 2 and sel % 3 == 1:
+            check_reader_usage(ctx, RecordReader, path, text, written, descriptors, base, sel // 3)
+
+
+def compare_read_obs(ctx, got, written, descriptors, base, route):
+    """`got` = normalised observations of the records a reader yielded; the oracle of (c) / (d)."""
+    tag = (" [%s]" % route) if route else ""
+    if len(got) != len(written):
+        ctx.violation(None, "the number of records read back from JSON differs from the number written%s" % tag,
+                      detail=dict(base, written=len(written), read=len(got)))
+        return False
+    ok = True
     if descriptors:
         for i, (w, o) in enumerate(zip(written, got)):
-            a, b = nanfix(w), nanfix(observe.normalise(observe.obs(o)))
+            a, b = nanfix(w), nanfix(o)
             ctx.event("records_compared")
             if a == b:
                 continue
+            ok = False
             for where, declared, wv, rv in observe.value_diffs(a, b, "$[%d]" % i):
-                ctx.violation(classify_diff(declared, wv, rv), "JSON round trip: value of declared type %s differs" % declared,
+                ctx.violation(classify_diff(declared, wv, rv), "JSON round trip%s: value of declared type %s differs" % (tag, declared),
                               detail=dict(base, where=where, declared=declared, written=wv, read=rv))
-        return
+        return ok
     # plain-JSON fallback: one record per line with the same scalar values
     for i, (w, o) in enumerate(zip(written, got)):
         wslots = observe.slots_of(w)
+        oslots = observe.slots_of(o)
         ctx.event("fallback_records_compared")
         names = [n for _, n in w[2]]
-        onames = [str(n) for _, n in o._desc.get_field_tuples()]
+        onames = [n for _, n in o[2]]
         if onames != names:
-            ctx.violation(None, "descriptors disabled: the record read back does not have the written record's fields",
+            ok = False
+            ctx.violation(None, "descriptors disabled%s: the record read back does not have the written record's fields" % tag,
                           detail=dict(base, fields=names, read_fields=onames))
             continue
         for t, n in w[2]:
@@ -1160,12 +1312,169 @@ def check_read(ctx, RecordReader, path, case, records, written, descriptors, cfg
             exp = scalar_expectation(wslots[n])
             if exp is None:
                 continue
-            ro = observe.oval(getattr(o, n))
+            ro = oslots.get(n)
             got_s = scalar_expectation(ro) if (ro is None or ro[0] in ("str", "int", "boolean", "float")) else ("other", repr(ro)[:100])
             ctx.event("fallback_scalars_checked")
             if not same_scalar(exp, ("float", "nan") if (got_s[0] == "float" and _is_nan_hex(got_s[1])) else got_s):
-                ctx.violation(None, "descriptors disabled: a scalar %s field is read back with a different value" % t,
+                ok = False
+                ctx.violation(None, "descriptors disabled%s: a scalar %s field is read back with a different value" % (tag, t),
                               detail=dict(base, field=n, type=t, written=exp, read=got_s))
+    return ok
+
+
+STDIN_CHILD = (
+    "import sys, os, json\n"
+    "repo = os.environ.get('VERIF_REPO', '/repo')\n"
+    "if os.path.realpath(repo) != '/repo' or os.environ.get('VERIF_FORCE_PATH'):\n"
+    "    sys.path.insert(0, repo)\n"
+    "from verif import observe\n"
+    "from flow.record import RecordReader\n"
+    "rd = RecordReader('jsonfile://-')\n"
+    "out = [observe.normalise(observe.obs(r)) for r in rd]\n"
+    "sys.stdout.write('C14CHILD ' + json.dumps(out) + '\\n')\n"
+)
+
+
+def read_other_route(ctx, RecordReader, path, route, written, descriptors, base):
+    """The same text through another reading route: a .gz / .bz2 copy named with the jsonfile:// scheme, a BINARY file
+    object handed to RecordReader('jsonfile://', fileobj=...), stdin of a child process.  Same oracle as the text path.
+    (Without the scheme a JSON file object has no magic bytes the adapter detection knows: not demanded.)"""
+    import bz2
+    import gzip
+    import sys
+
+    base = dict(base, route=route)
+    extra = None
+    fobj = None
+    try:
+        try:
+            if route in ("gz", "bz2"):
+                extra = path + "." + route
+                with open(path, "rb") as f:
+                    data = f.read()
+                with (gzip.open if route == "gz" else bz2.open)(extra, "wb") as f:
+                    f.write(data)
+                rd = RecordReader("jsonfile://" + extra)
+                try:
+                    got = [observe.normalise(observe.obs(r)) for r in rd]
+                finally:
+                    rd.close()
+            elif route == "fileobj":
+                fobj = open(path, "rb")
+                rd = RecordReader("jsonfile://", fileobj=fobj)
+                got = [observe.normalise(observe.obs(r)) for r in rd]
+            else:
+                env = dict(os.environ)
+                from ..core import VERIF_DIR
+
+                pp = env.get("PYTHONPATH", "")
+                if VERIF_DIR not in pp.split(os.pathsep):
+                    env["PYTHONPATH"] = VERIF_DIR + (os.pathsep + pp if pp else "")
+                with open(path, "rb") as f:
+                    try:
+                        p = subprocess.run([sys.executable, "-W", "ignore", "-c", STDIN_CHILD], stdin=f, capture_output=True, text=True, timeout=120, env=env)
+                    except subprocess.TimeoutExpired:
+                        ctx.require(False, "the stdin reader child exceeded its 120 s watchdog")
+                        return
+                line = next((ln for ln in p.stdout.splitlines() if ln.startswith("C14CHILD ")), None)
+                if p.returncode != 0 or line is None:
+                    ctx.violation(None, "reading the JSON adapter's own output from stdin failed in a child process",
+                                  detail=dict(base, returncode=p.returncode, stderr=p.stderr[-1500:]))
+                    return
+                got = json.loads(line[len("C14CHILD "):])
+        except Exception as e:  # noqa: BLE001
+            ctx.violation(None, "reading the JSON adapter's own output through another route raised %s" % type(e).__name__,
+                          detail=dict(base, exception=repr(e)[:400]))
+            return
+        ctx.event("read_route:" + route)
+        ctx.event("records_read_other_route", len(got))
+        compare_read_obs(ctx, got, written, descriptors, base, route)
+    finally:
+        if fobj is not None:
+            try:
+                fobj.close()
+            except Exception:  # noqa: BLE001
+                pass
+        if extra:
+            try:
+                os.unlink(extra)
+            except OSError:
+                pass
+
+
+def check_reader_usage(ctx, RecordReader, path, text, written, descriptors, base, sel):
+    """How applications use a reader: peek at the first record then iterate again; iterate partly, break, iterate again;
+    a corrupt line in the middle with the application catching the error and going on with the same reader.  On the
+    pinned code every resumed iteration continues with the next line; the records of all intact lines come back, once, in order."""
+    import gc
+
+    n = len(written)
+    mode = ("peek", "partial", "corrupt-truncated", "corrupt-garbage")[sel % 4]
+    base = dict(base, reader_usage=mode)
+    tmp = None
+    try:
+        try:
+            if mode == "peek":
+                rd = RecordReader(path)
+                first = next(iter(rd))
+                gc.collect()  # the abandoned iterator is finalised here
+                got = [first] + list(rd)
+                rd.close()
+                want = written
+            elif mode == "partial":
+                rd = RecordReader(path)
+                k = max(1, n // 2)
+                got = []
+                for r in rd:
+                    got.append(r)
+                    if len(got) >= k:
+                        break
+                gc.collect()
+                got += list(rd)
+                rd.close()
+                want = written
+            else:
+                lines = text.split("\n")
+                if lines and lines[-1] == "":
+                    lines.pop()
+                # record lines only (a lost descriptor line makes later records undecodable by design)
+                rec_idx = [k for k, ln in enumerate(lines) if '"_type": "recorddescriptor"' not in ln[:40]]
+                if len(rec_idx) != n or n < 2:
+                    return
+                j = (sel // 4) % n
+                bad = lines[rec_idx[j]]
+                lines[rec_idx[j]] = bad[: max(1, len(bad) // 2)] if mode == "corrupt-truncated" else "WARNING: something was logged here"
+                tmp = path + ".corrupt.json"
+                with open(tmp, "w", encoding="utf-8", newline="") as f:
+                    f.write("\n".join(lines) + "\n")
+                rd = RecordReader(tmp)
+                got, errors = [], 0
+                while True:
+                    try:
+                        for r in rd:
+                            got.append(r)
+                        break
+                    except ValueError:  # json.JSONDecodeError: the application skips the line and goes on
+                        errors += 1
+                        if errors > 3:
+                            break
+                rd.close()
+                ctx.event("reader_usage_corrupt_lines_skipped", errors)
+                if errors != 1:
+                    ctx.violation(None, "a reader over a file with ONE corrupt line raised %d times" % errors, detail=base)
+                    return
+                want = written[:j] + written[j + 1:]
+        except Exception as e:  # noqa: BLE001
+            ctx.violation(None, "reader usage '%s' raised %s" % (mode, type(e).__name__), detail=dict(base, exception=repr(e)[:400]))
+            return
+        ctx.event("reader_usage:" + mode)
+        compare_read_obs(ctx, [observe.normalise(observe.obs(o)) for o in got], want, descriptors, base, "reader usage: " + mode)
+    finally:
+        if tmp:
+            try:
+                os.unlink(tmp)
+            except OSError:
+                pass
 
 
 def _is_nan_hex(h):
@@ -1243,8 +1552,13 @@ def finish(ctx):
                     "(the variants did not share an identifier on this tree)")
         ctx.require(ctx.events.get("grouped_records_written", 0) > 0, "no grouped record was written")
         ctx.require(ctx.events.get("rewrite_writes_of_the_same_object", 0) > 0, "no re-used record object was written")
+        ctx.require(ctx.events.get("records_read_other_route", 0) > 0, "no file was read through a second route (gz / bz2 / file object)")
+        ctx.require(sum(v for k, v in ctx.events.items() if k.startswith("reader_usage:")) > 0, "no reader-usage history was run")
         ctx.require(ctx.events.get("writes_after_a_refused_record", 0) > 0, "no record was written after a refused one "
                     "(the encoder refused nothing: sys.get_int_max_str_digits() disabled and legacy field accepted?)")
+    if ctx.events.get("turnover_cases", 0):
+        ctx.require(ctx.events.get("turnover_descriptor_objects_at_a_previously_used_address", 0) > 0,
+                    "descriptor turnover never produced a descriptor object at an address a released one of another layout had")
     if ctx.evaluations:
         for q in ANCHORS[:5]:
             ctx.require(ctx.reach.get(q, 0) > 0, "anchor %s was never entered" % q)
